@@ -658,7 +658,7 @@ func (b *BmPrefix) Scan(text []rune, index, beglimit, endlimit int) int {
 		if chTest != chMatch {
 			if chTest < 128 {
 				advance = b.negativeASCII[chTest]
-			} else if chTest < 0xffff && len(b.negativeUnicode) > 0 {
+			} else if chTest <= 0xffff && len(b.negativeUnicode) > 0 {
 				unicodeLookup = b.negativeUnicode[chTest>>8]
 				if len(unicodeLookup) > 0 {
 					advance = unicodeLookup[chTest&0xFF]
@@ -696,7 +696,7 @@ func (b *BmPrefix) Scan(text []rune, index, beglimit, endlimit int) int {
 					advance = b.positive[match]
 					if chTest < 128 {
 						test2 = (match - startmatch) + b.negativeASCII[chTest]
-					} else if chTest < 0xffff && len(b.negativeUnicode) > 0 {
+					} else if chTest <= 0xffff && len(b.negativeUnicode) > 0 {
 						unicodeLookup = b.negativeUnicode[chTest>>8]
 						if len(unicodeLookup) > 0 {
 							test2 = (match - startmatch) + unicodeLookup[chTest&0xFF]
